@@ -743,6 +743,11 @@ def correspond(ctx):
                                           'inf) and main.process() fails with OverflowError; in real time (and for sched(inf, f)) inf means never. Program: %s -- %s'
                                           % (json.dumps(p), why.strip().splitlines()[0][:200]), signature=SIG_INF, theorem='rt_nrt_agree', found_input=True, replay={'program': p}))
                 continue
+            if any(act[:2] == ['YV', 'nan'] for b_ in p['bodies'] for act in b_) and 'NaN' in why:
+                c.failures.append(Failure('correspondence', 'NRT: a routine that yields nan is put back in the queue with key nan; when that entry is performed the logical time becomes nan '
+                                          'and main.process() fails with ValueError (in real time the entry blocks the clock for good). Program: %s -- %s'
+                                          % (json.dumps(p), why.strip().splitlines()[0][:200]), signature=SIG_NAN, theorem='rt_nrt_agree', found_input=True, replay={'program': p}))
+                continue
             c.failures.append(Failure('correspondence', 'NRT case %d could not be run: %s' % (i, why[:600]), found_input=True,
                                       replay={'program': p}))
             continue
@@ -935,7 +940,7 @@ def correspond(ctx):
     # (d) the quantisation API of TempoClock (logged values; no model)
     quant_part(ctx, c)
     # concrete failing inputs (the property itself fails on the real library) before model disagreements
-    c.failures.sort(key=lambda f: not f.found_input)
+    c.failures.sort(key=lambda f: (not f.found_input, f.signature is None, f.replay.get('program') is not NAN_PROG))
 
     c.rule = ('script programs (nested routines on SystemClock/TempoClocks, tempo changes, pause/resume, Condition wait/signal, FlowVar, rand_seed and draws '
               'through the builtin random functions, bundle sends) compiled to real generator functions; (a) two fresh NRT processes: scores byte-identical, '
